@@ -144,7 +144,7 @@ def check_sequence(root, nodes):
         u = inspection.unwrap(n.type)
         if n.unwrapped != u:
             bad.append(f"node {n!r}: unwrapped is not unwrap(type)")
-        if inspection.isliteral(u):
+        if inspection.isliteral(u) or inspection.isunresolvable(u):      # no member types to convert (values / pass-through)
             continue
         for var, child in members(u):
             ok = False
